@@ -17,8 +17,8 @@ import (
 	"strconv"
 	"strings"
 
-	configapi "github.com/onosproject/onos-api/go/onos/config/v2"
 	api "github.com/onosproject/onos-api/go/onos/config/admin"
+	configapi "github.com/onosproject/onos-api/go/onos/config/v2"
 	"github.com/onosproject/onos-config/pkg/pluginregistry"
 	treev2 "github.com/onosproject/onos-config/pkg/utils/v2/tree"
 	"github.com/onosproject/onos-config/verifharness/internal/fw"
